@@ -134,6 +134,9 @@ class Monitors:
                         st["file"] = name; st["n"] = 0; mon.tl.fp_file = name
                         monx.set_events(TOOL, monx.events.PY_START)
                         try: return inner(cls, module, results, file_context)
+                        except InjectedFault:
+                            tr.emit("fault_escaped", kind="failpoint", path=name, cm=mon.current_codemod)      # the injected exception left the transformer (code that handles it internally has processed the file)
+                            raise
                         finally:
                             monx.set_events(TOOL, 0); st["file"] = None; mon.tl.fp_file = None
                             tr.emit("fp_count", path=name, entries=st["n"])
